@@ -30,7 +30,7 @@ class Ty:
 
 def _ints(lo, hi, extra=()):
     vals = [(str(v), v) for v in (lo, hi, 0, 1, -1 if lo < 0 else 2, 7, 10, 42, 99)]
-    vals += [("+7", 7), ("007", 7), (" 10 ", 10)] + list(extra)
+    vals += [("+7", 7), ("007", 7), (" 10 ", 10), ("+0", 0), ("-0", 0), ("000", 0), ("+01", 1), ("-07", -7), (str(hi - 1), hi - 1)] + list(extra)
     seen, out = set(), []
     for lex, k in vals:
         if lo <= k <= hi:
@@ -57,11 +57,23 @@ def types():
                      [("/a:tc/a:tl", 1), ("/a:tc", 2), ("/a:tc/a:tl2[.='x']", 3), ("/a:tc/a:tl2[.=\"it's\"]", 4), ("/a:tc/a:tq[a:k='a b']/a:v", 5),
                       ("/a:tc/a:tq[a:k=\"q'\"]", 6), ("/a:tc/a:tq[a:k='d\"q']", 7)], needs_ns=True)
     t["empty"] = Ty("empty", "empty", [("", 0)])
+    # boundary-dense additions of the typed-key wave: a range with two parts, the F412 union (a later member's canonical string is
+    # taken by an earlier member), an enumeration whose names look like numbers in front of an integer member, many bits
+    t["uint8r"] = Ty("uint8r", "uint8 { range \"1..5 | 10..200\"; }", [("1", 1), ("5", 5), ("10", 10), ("200", 200), ("+3", 3), ("003", 3), ("0200", 200), ("199", 199)])
+    t["f412u"] = Ty("f412u", "union { type string { length 1; } type int16; }",
+                    [("1", "s1"), ("+1", "i1"), ("7", "s7"), ("07", "i7"), ("a", "sa"), ("12", "i12"), ("012", "i12"), ("-3", "i-3"), ("0", "s0"), ("+0", "i0")])
+    t["enumint"] = Ty("enumint", "union { type enumeration { enum \"5\"; enum x; enum \"-1\"; } type int8; type boolean; }",
+                      [("5", "e5"), ("+5", "i5"), ("x", "ex"), ("-1", "e-1"), ("-01", "i-1"), ("true", "true"), ("42", "i42"), ("042", "i42")])
+    t["bits9"] = Ty("bits9", "bits { bit a; bit b { position 7; } bit c { position 8; } bit dd { position 31; } bit e { position 32; } }",
+                    [("a", 1), ("e a", 3), ("a e", 3), ("b c", 4), ("c  b", 4), ("dd", 5), ("e dd c b a", 31), ("", 0), ("c", 6)])
+    t["dec64b"] = Ty("dec64b", "decimal64 { fraction-digits 1; range \"-10.0..10.0\"; }",
+                     [("1", 10), ("1.0", 10), ("+1.0", 10), ("-0.5", -5), ("-.5", -5), ("10", 100), ("-10.0", -100), ("0.0", 0), ("00.1", 1)])
     return t
 
 
 TYPES = types()
-KEY_TYPES_TYPED = ["string", "qstring", "int8", "uint32", "int64", "boolean", "enum", "dec64", "union", "bits", "identityref", "instid"]
+KEY_TYPES_TYPED = ["string", "qstring", "int8", "uint32", "int64", "boolean", "enum", "dec64", "union", "bits", "identityref", "instid",
+                   "uint8r", "f412u", "enumint", "bits9", "dec64b", "int8", "identityref"]
 LEAF_TYPES_TYPED = KEY_TYPES_TYPED + ["empty"]
 
 
@@ -81,7 +93,8 @@ class SN:
 
 
 NAMES = ["c", "d", "l", "m", "ll", "sl", "kl", "x", "y", "z", "v", "w", "n1", "a-b", "a.b", "_u", "or", "and", "div", "mod", "node", "text", "self", "child"]
-KEYN = ["k", "k1", "k2", "id", "name"]
+# several of these are prefixes of one another: the duplicate-key / key-name matching of ly_path must compare whole names
+KEYN = ["k", "k1", "k2", "id", "name", "kk", "k12", "address", "address-family", "id2", "nam"]
 
 
 class SchemaGen:
@@ -532,6 +545,147 @@ def mutate_path(rng, p):
     elif op == "dquote":
         s = s.replace("'", '"', 1)
     return s.encode("utf-8", "surrogateescape")
+
+
+# ------------------------------------------------------------------------------------------- typed predicates
+def pred_spans(s):
+    """predicates of a printed path (str): [(start, end, step_index, name, quote, body)] for `[name='…']` / `[.="…"]`, quote-aware"""
+    out, i, n, step = [], 0, len(s), 0
+    while i < n:
+        ch = s[i]
+        if ch == "/":
+            step += 1; i += 1
+        elif ch == "[":
+            j = s.find("=", i)
+            if j < 0 or j + 1 >= n or s[j + 1] not in "'\"" or "]" in s[i:j]:
+                k = s.find("]", i)
+                i = n if k < 0 else k + 1
+                continue
+            q = s[j + 1]
+            k = s.find(q, j + 2)
+            if k < 0 or k + 1 >= n or s[k + 1] != "]":
+                i = n
+                continue
+            out.append((i, k + 2, step, s[i + 1:j], q, s[j + 2:k]))
+            i = k + 2
+        else:
+            i += 1
+    return out
+
+
+def literal_variants(rng, body):
+    """non-canonical (or invalid) spellings of a canonical value: sign, leading / trailing zeros, blanks, bit order, identityref prefixes"""
+    import re
+    v = []
+    if re.fullmatch(r"-?\d+", body) and len(body) < 25 and rng.random() < 0.45:
+        # spellings whose value depends on the number base the store is asked to use (data: base 10 only)
+        n = int(body)
+        sg, a = ("-" if n < 0 else ""), abs(n)
+        return rng.choice([sg + "0x%x" % a, sg + "0X%X" % a, sg + "0%o" % a, sg + "0" + str(a), sg + "00" + str(a), sg + "0" + str(a) + "0", "+" + str(a) if n >= 0 else "-0" + str(a),
+                           sg + "0x0%x" % a, sg + "010", sg + "0x10", sg + "08"])
+    if re.fullmatch(r"-?\d+", body):
+        neg, digits = body.startswith("-"), body.lstrip("-")
+        v += [("-0" if neg else "+0") + digits, ("-" if neg else "+") + digits if not neg else "-00" + digits, "0" + body if not neg else body, body + " ", " " + body,
+              "\t" + body + "\n", body + ".0", "0x" + digits, str(int(body) + 1), body + "0", "+" + body, "--" + digits, body + "e0"]
+    elif re.fullmatch(r"-?\d+\.\d+", body):
+        v += ["+" + body, body + "0", "0" + body.lstrip("-") if not body.startswith("-") else "-0" + body[1:], body + "00", body.rstrip("0"), body.split(".")[0],
+              "." + body.split(".")[1], body + " ", body.replace(".", ","), body + "1"]
+    elif re.fullmatch(r"[A-Za-z_][\w.-]*:[A-Za-z_][\w.-]*", body):
+        m, n = body.split(":", 1)
+        v += [n, "a:" + n, "b:" + n, ("mmb:" if m == "mma" else "mma:") + n, m + ":" + n + "x", ":" + n, m + ":", " " + body, body + " ", m.upper() + ":" + n]
+    elif re.fullmatch(r"[A-Za-z_][\w.-]*( [A-Za-z_][\w.-]*)+", body):
+        parts = body.split(" ")
+        v += [" ".join(reversed(parts)), "  ".join(parts), " " + body + " ", body + " " + parts[0], body + " zz", "\t".join(parts), parts[0], " ".join(parts[1:] + parts[:1])]
+    elif body in ("true", "false"):
+        v += [body.upper(), body + " ", " " + body, "1", "0", body[0], {"true": "false", "false": "true"}[body]]
+    v += [body + " ", body.upper(), body.lower(), "", body * 2, "+" + body, "0" + body, body[::-1], body[:-1], "1", "x"]
+    return rng.choice(v)
+
+
+def mutate_typed(rng, p):
+    """one mutation of a printed path that keeps its structure and changes how a typed predicate value is written, which key comes first,
+    or how a key is named (bytes -> bytes)"""
+    import re
+    r = rng
+    s = p.decode("utf-8", "surrogateescape")
+    spans = pred_spans(s)
+    if not spans:
+        return mutate_path(rng, p)
+    op = r.choice(["lit", "lit", "lit", "num", "perm", "perm", "dropkey", "dupkey", "swapval", "prefixkey", "quote", "renamekey", "generic"])
+    by_step = {}
+    for sp in spans:
+        by_step.setdefault(sp[2], []).append(sp)
+    multi = [v for v in by_step.values() if len(v) >= 2 and all(a[1] == b[0] for a, b in zip(v, v[1:]))]
+    def put(sp, name, q, body):
+        if q in body:
+            q = "\"" if q == "'" else "'"
+        return s[:sp[0]] + "[%s=%s%s%s]" % (name, q, body, q) + s[sp[1]:]
+    if op == "lit":
+        sp = r.choice(spans)
+        return put(sp, sp[3], sp[4], literal_variants(r, sp[5])).encode("utf-8", "surrogateescape")
+    if op == "num":
+        sp = r.choice(spans)
+        body = sp[5] if re.fullmatch(r"\d+(\.\d*)?", sp[5]) and r.random() < 0.6 else r.choice(["1", "7", "07", "1.5", "1.", ".5", "5", "0", "12", "012", "200"])
+        return (s[:sp[0]] + "[%s=%s]" % (sp[3], body) + s[sp[1]:]).encode("utf-8", "surrogateescape")
+    if op == "perm" and multi:
+        grp = r.choice(multi)
+        texts = [s[a[0]:a[1]] for a in grp]
+        perm = texts[:]
+        while perm == texts:
+            r.shuffle(perm)
+        return (s[:grp[0][0]] + "".join(perm) + s[grp[-1][1]:]).encode("utf-8", "surrogateescape")
+    if op == "dropkey" and multi:
+        sp = r.choice(r.choice(multi))
+        return (s[:sp[0]] + s[sp[1]:]).encode("utf-8", "surrogateescape")
+    if op == "dupkey":
+        grp = r.choice(list(by_step.values()))
+        sp = r.choice(grp)
+        at = r.choice(grp)[1]
+        return (s[:at] + s[sp[0]:sp[1]] + s[at:]).encode("utf-8", "surrogateescape")
+    if op == "swapval" and multi:
+        grp = r.choice(multi)
+        a, b = r.sample(grp, 2)
+        if a[0] > b[0]:
+            a, b = b, a
+        return (s[:a[0]] + "[%s=%s%s%s]" % (a[3], b[4], b[5], b[4]) + s[a[1]:b[0]] + "[%s=%s%s%s]" % (b[3], a[4], a[5], a[4]) + s[b[1]:]).encode("utf-8", "surrogateescape")
+    if op == "prefixkey":
+        sp = r.choice(spans)
+        if sp[3] != ".":
+            return put(sp, r.choice(["mma:", "mmb:", "zz:", "a:"]) + sp[3], sp[4], sp[5]).encode("utf-8", "surrogateescape")
+    if op == "renamekey":
+        sp = r.choice(spans)
+        if sp[3] != ".":
+            # a name that is a prefix / an extension of the real one, or another key name of the pool
+            name = r.choice([sp[3][:-1] or "k", sp[3] + "k", sp[3] + "2", sp[3] + "-family", r.choice(KEYN)])
+            return put(sp, name, sp[4], sp[5]).encode("utf-8", "surrogateescape")
+    if op == "quote":
+        sp = r.choice(spans)
+        q = "\"" if sp[4] == "'" else "'"
+        if q not in sp[5]:
+            return (s[:sp[0]] + "[%s=%s%s%s]" % (sp[3], q, sp[5], q) + s[sp[1]:]).encode("utf-8", "surrogateescape")
+    return mutate_path(rng, p)
+
+
+def all_key_orders(p):
+    """every ordering of the key predicates of every multi-key step of a printed path (the printed order excluded)"""
+    s = p.decode("utf-8", "surrogateescape")
+    by_step = {}
+    for sp in pred_spans(s):
+        by_step.setdefault(sp[2], []).append(sp)
+    out = []
+    for grp in by_step.values():
+        if 2 <= len(grp) <= 3 and all(a[1] == b[0] for a, b in zip(grp, grp[1:])):
+            texts = [s[a[0]:a[1]] for a in grp]
+            for perm in itertools.permutations(texts):
+                if list(perm) != texts:
+                    out.append((s[:grp[0][0]] + "".join(perm) + s[grp[-1][1]:]).encode("utf-8", "surrogateescape"))
+    return out
+
+
+def value_variants(rng, val):
+    if val is None:
+        return rng.choice([None, b"x", b""])
+    return rng.choice([val, val, literal_variants(rng, val.decode("utf-8", "surrogateescape")).encode("utf-8", "surrogateescape"), b"x", b"", None])
 
 
 TOKENS_SMALL = [b"/", b"a", b"b:c", b"[", b"]", b"=", b".", b"'x'", b"1", b" ", b"k"]
